@@ -1326,6 +1326,15 @@ fn families() -> Vec<Scenario> {
         v.push(fam(30, 1, o, vec![(K_REG, 0, R_GOOD), (K_UP, 0, 0), (K_REV, 0, 0), (K_SETTLE, 0, 0), (K_UP, 0, 1), (K_RETRY, 0, 0), (K_KILL, 0, 6000), (K_MODE, 0, cls),
                                   (K_START, 0, 0), (K_SETTLE, 0, 0), (K_REV, 1, 0), (K_SETTLE, 0, 0)]));
     }
+    // 31: records SHARED between towers (one appointment body, one link per tower: accepted / pending / invalid in every combination),
+    //     then one of the towers is abandoned: exactly its links go, the other tower keeps a record of every appointment - in the
+    //     answers, in the file, and after a restart
+    for (a, b) in [(A_APIERR, A_APIERR), (A_RESET, A_APIERR), (A_APIERR, A_RESET), (A_ACCEPT, A_APIERR), (A_APIERR, A_ACCEPT), (A_RESET, A_RESET), (A_RESET, A_ACCEPT)] {
+        for who in [0u64, 1] {
+            v.push(fam(31, 2, (2, 30, 1), vec![(K_REG, 0, R_GOOD), (K_REG, 1, R_GOOD), (K_MODE, 0, a), (K_MODE, 1, b), (K_REV, 0, 0), (K_REV, 1, 0), (K_SETTLE, 0, 0),
+                                               (K_ABANDON, who, 0), (K_SETTLE, 0, 0), (K_KILL, 0, 0), (K_START, 0, 0), (K_SETTLE, 0, 0)]));
+        }
+    }
     // 28: the plugin is KILLED at some point of a bulk delivery and started again: what had a record before has one after
     for ms in [1250u64, 1400, 1550, 1700, 1850, 2000, 2150, 2300] {
         let mut steps = vec![(K_REG, 0, R_GOOD), (K_UP, 0, 0), (K_REV, 0, 0), (K_SETTLE, 0, 0)];
